@@ -107,9 +107,18 @@ def run(ctx):
                 same_term(ob, a, b, 'fingerprints agree', fa.where)
     # re-use the dispatch / projection / guard obligations that this property shares
     from . import C07, C02
+    C07.check_dispatch(ctx, 'C14.DISPATCH')
     sub = ctx.__class__('C14', ctx.tier, ctx.p, ctx.seed)
     C02.run(sub)
     for o in sub.obligations:
-        if o.rule in ('C02.GUARD', 'C02.PROJ'):
+        if o.rule in ('C02.GUARD', 'C02.PROJ', 'C02.CHILD'):
             o.rule = 'C14.' + o.rule.split('.', 1)[1] + '(=C02)'
+            ctx.obligations.append(o)
+    # public derivation on a long-lived watch-only node must not depend on what was derived before
+    from . import C13
+    sub = ctx.__class__('C14', ctx.tier, ctx.p, ctx.seed)
+    C13.run(sub)
+    for o in sub.obligations:
+        if o.rule in ('C13.NOREAD', 'C13.WRITES'):
+            o.rule = 'C14.' + o.rule.split('.', 1)[1] + '(=C13)'
             ctx.obligations.append(o)
